@@ -56,12 +56,18 @@ def main():
         sh('git -C /repo worktree remove --force %s' % wt)
         sh('rm -rf %s' % wt)
         detected = [p for p, v in res.items() if v['exit'] == 1]
-        meta['detected_by'] = {p: [re.sub(r'^VIOLATION property=\S+ replay=\S+ obligation=', '', l) for l in v['violations']] for p, v in res.items() if v['exit'] == 1}
-        meta['last_evaluation'] = dict(tier=a.tier, results={p: dict(exit=v['exit'], seconds=v['seconds']) for p, v in res.items()}, repo_head=sh('git -C /repo rev-parse --short HEAD').stdout.strip())
+        found = {p: [re.sub(r'^VIOLATION property=\S+ replay=\S+ obligation=', '', l) for l in v['violations']] for p, v in res.items() if v['exit'] == 1}
+        evaluation = dict(tier=a.tier, results={p: dict(exit=v['exit'], seconds=v['seconds']) for p, v in res.items()}, repo_head=sh('git -C /repo rev-parse --short HEAD').stdout.strip())
+        if a.tier == 'thorough':
+            meta['thorough_detected_by'] = found
+            meta['thorough_evaluation'] = evaluation
+        else:
+            meta['detected_by'] = found
+            meta['last_evaluation'] = evaluation
         json.dump(meta, open(mp, 'w'), indent=1)
-        json.dump(res, open(os.path.join(d, 'result.json'), 'w'), indent=1)
+        json.dump(res, open(os.path.join(d, 'result.json' if a.tier != 'thorough' else 'result_thorough.json'), 'w'), indent=1)
         rows.append((sid, meta['property'], 'DETECTED by ' + ','.join(detected) if detected else 'MISSED (exits: %s)' % {p: v['exit'] for p, v in res.items()},
-                     '; '.join(o for p in detected for o in meta['detected_by'][p][:2])))
+                     '; '.join(o for p in detected for o in found[p][:2])))
         print(rows[-1], flush=True)
     with open(os.path.join(VERIF, 'seeded', 'RESULTS.md'), 'w') as fh:
         fh.write('| seed | property | verdict | first failed obligations |\n|---|---|---|---|\n')
